@@ -10,8 +10,10 @@ import (
 	"hash/fnv"
 	"math/rand/v2"
 	"os"
+	"runtime"
 	"sort"
 	"strconv"
+	"strings"
 	"sync"
 	"testing"
 	"time"
@@ -257,6 +259,10 @@ type J = map[string]any
 // scenario's own teardown.  That is recorded as an inconclusive observation of the scenario (its oracles have
 // already run inside f), never silently ignored and never fatal for the other cases of the process.
 func Bubble(run func(), what string) (leaked bool) {
+	if CurrentScenario() == "" {
+		Scenario(what+"/bubble", -1, what)
+		defer ScenarioDone()
+	}
 	defer func() {
 		if p := recover(); p != nil {
 			msg := fmt.Sprint(p)
@@ -271,4 +277,137 @@ func Bubble(run func(), what string) (leaked bool) {
 	}()
 	run()
 	return false
+}
+
+// ---- scenario watchdog ------------------------------------------------------------------------------------------
+// A scenario that livelocks (a caller busy-loops instead of blocking or returning: goroutines pile up while a
+// bubble's virtual clock stands still) or deadlocks on a library mutex can never reach the quiescent point where
+// its oracle runs.  The watchdog runs outside every bubble, on the real clock, and only classifies *stable* states:
+//   - runaway: the process holds more than 150 000 goroutines                      -> violation <prefix>/livelock-...
+//   - the same scenario has been current for 40 s and two goroutine dumps 10 s apart show the same goroutine
+//     blocked in sync.(*Mutex|*RWMutex).Lock/RLock under a library frame            -> violation <prefix>/deadlock-...
+//   - the same scenario has been current for 120 s without either                   -> inconclusive, process exits
+// After reporting, the process exits (the scenario cannot be abandoned from outside).
+
+var (
+	scenMu     sync.Mutex
+	scenPrefix string
+	scenIdx    int64
+	scenDetail any
+	scenSince  time.Time
+	scenSeq    int64
+	watchOnce  sync.Once
+)
+
+// Scenario marks the start of a scenario (signature prefix such as "C13/deadline") and starts the watchdog.
+func Scenario(prefix string, idx int64, detail any) {
+	scenMu.Lock()
+	scenPrefix, scenIdx, scenDetail, scenSince = prefix, idx, detail, time.Now()
+	scenSeq++
+	scenMu.Unlock()
+	watchOnce.Do(func() { go watchdog() })
+}
+
+// ScenarioDone marks the end of the current scenario.
+func ScenarioDone() {
+	scenMu.Lock()
+	scenPrefix = ""
+	scenSeq++
+	scenMu.Unlock()
+}
+
+const libMod = "github.com/platinummonkey/go-concurrency-limits/"
+
+func blockedOnLibraryMutex(dump string) map[string]string {
+	out := map[string]string{}
+	for _, b := range strings.Split(dump, "\n\n") {
+		if !(strings.Contains(b, "sync.(*Mutex).Lock") || strings.Contains(b, "sync.(*RWMutex).Lock") || strings.Contains(b, "sync.(*RWMutex).RLock")) {
+			continue
+		}
+		i := strings.Index(b, libMod)
+		if i < 0 {
+			continue
+		}
+		hdr := b
+		if j := strings.Index(b, "\n"); j > 0 {
+			hdr = b[:j]
+		}
+		id := hdr
+		if j := strings.Index(hdr, " ["); j > 0 {
+			id = hdr[:j]
+		}
+		fr := b[i+len(libMod):]
+		if j := strings.IndexAny(fr, "(\n"); j > 0 {
+			// keep "pkg.(*T).Method"
+			k := strings.Index(fr, "\n")
+			if k < 0 {
+				k = len(fr)
+			}
+			fr = fr[:k]
+			if p := strings.LastIndex(fr, "("); p > 0 {
+				fr = fr[:p]
+			}
+		}
+		out[id] = fr
+	}
+	return out
+}
+
+func watchdog() {
+	var lastSeq int64 = -1
+	var firstDump map[string]string
+	var firstAt time.Time
+	for {
+		time.Sleep(500 * time.Millisecond)
+		scenMu.Lock()
+		prefix, idx, detail, since, seq := scenPrefix, scenIdx, scenDetail, scenSince, scenSeq
+		scenMu.Unlock()
+		if prefix == "" {
+			lastSeq, firstDump = -1, nil
+			continue
+		}
+		if seq != lastSeq {
+			lastSeq, firstDump = seq, nil
+		}
+		if n := runtime.NumGoroutine(); n > 150000 {
+			Violation(prefix+"/livelock-goroutines-pile-up-scenario-never-quiesces", idx, J{"scenario": detail, "goroutines": n,
+				"meaning": "a caller neither blocks nor returns: it spins, spawning helper goroutines, so the scenario never reaches a quiescent point"})
+			Flush()
+			os.Exit(0)
+		}
+		age := time.Since(since)
+		if age > 40*time.Second {
+			buf := make([]byte, 4<<20)
+			dump := string(buf[:runtime.Stack(buf, true)])
+			cur := blockedOnLibraryMutex(dump)
+			if firstDump == nil {
+				firstDump, firstAt = cur, time.Now()
+			} else if time.Since(firstAt) > 10*time.Second {
+				for id, fr := range cur {
+					if firstDump[id] == fr {
+						if len(dump) > 8000 {
+							dump = dump[:8000]
+						}
+						Violation(prefix+"/deadlock-on-library-mutex/"+fr, idx, J{"scenario": detail, "goroutine": id, "blocked_in": fr,
+							"meaning": "the same goroutine has been waiting for a mutex of the library for more than 10 s of real time while the scenario made no progress", "stacks": dump})
+						Flush()
+						os.Exit(0)
+					}
+				}
+				firstDump, firstAt = cur, time.Now()
+			}
+		}
+		if age > 120*time.Second {
+			Inconclusive("scenario " + prefix + " made no progress for 120 s of real time; no livelock / library-mutex deadlock recognised")
+			Flush()
+			os.Exit(0)
+		}
+	}
+}
+
+// CurrentScenario returns the signature prefix of the scenario in progress ("" if none).
+func CurrentScenario() string {
+	scenMu.Lock()
+	defer scenMu.Unlock()
+	return scenPrefix
 }
